@@ -24,6 +24,8 @@ def make_config(rng: random.Random, profile: str, tier: str) -> dict:
     cfg = specs.gen_model_config(rng, k_max=6, wide=wide, fancy_names=True, allow_cliff=True)
     cfg['chunk'] = rng.choice([None, None, 16, 32, 64, 100, 256, 1024])
     cfg['threads'] = rng.choice([1, 1, 2, 3, 0])
+    # buggify: knobs the saved-iteration logic is supposed not to depend on
+    cfg['max_report'] = rng.choice([15, 15, 0, 1, 2])
     return cfg
 
 
@@ -229,6 +231,7 @@ class Session:
         p.set_value('generate_pickle', False)
         p.set_value('number_of_threads', self.cfg['threads'] or 0)
         p.set_value('max_iterations', 60)
+        p.set_value('max_number_parameters_to_report', self.cfg.get('max_report', 15))
         b = bio.BIOGEME(d, ll, parameters=p)
         b.modelName = self.model_name
         b._betas = betas
